@@ -34,6 +34,7 @@ func checkC01(p *Prog, r *Report) {
 	c01R4(p, r)
 	dayHandover(p, r, "C01.R5")
 	c01Sweeps(p, r)
+	constantLevelRule(p, r, "C01.R7")
 }
 
 // resolvePhi substitutes φ atoms of q by the value of arm k.
